@@ -91,10 +91,13 @@ def facts(src):
         with open(os.path.join(HERE, 'pins_masked.json')) as f:
             want = json.load(f)
         got = translate.masked_shapes(src)
-        for k, w in want.items():
-            summary[k] = got.get(k)
-            if got.get(k) != w:
-                problems.append('shape pin %s changed (%s -> %s): the hand-written model follows the previous text' % (k, w, got.get(k)))
+        for rel, qs in want.items():
+            for q, w in qs.items():
+                g = got.get(rel, {}).get(q)
+                summary['%s:%s(masked)' % (rel, q)] = g
+                if g != w:
+                    problems.append('shape pin %s:%s (translated fragment masked out) changed (%s -> %s): the hand-written '
+                                    'model follows the previous text' % (rel, q, w, g))
     except Exception as e:
         problems.append('masked shape pins could not be computed: %r' % e)
     summary.update(tsummary)
@@ -180,15 +183,11 @@ def _stmt_wire(w, s):
 
 
 def _vd_perm(s):
-    """(oracle) what the viewdefaults decorator reads: getattr(view, '__view_defaults__', {}).get('permission') for a class"""
-    import inspect
-    view, _, _ = W.make_view(s['tag'], s['kind'], s['behave'], s.get('vd'))
-    if not inspect.isclass(view):
-        return None
-    d = getattr(view, '__view_defaults__', {})
-    if 'permission' not in d:
-        return None
-    return [W.perm_text(W.perm_token(d['permission']))]
+    """what the PROGRAM declares: @view_defaults(permission=..) on the view class or on a base class of it (class kinds only).
+    Taken from the case, not from the attribute pyramid.view.view_defaults writes: the decorator is code under test."""
+    if s.get('vd') and s['kind'] in ('cls', 'cls2', 'attr'):
+        return [W.perm_text(s['vd']['perm'])]
+    return None
 
 
 def _req_wire(w, r):
@@ -426,7 +425,7 @@ def kinds(case, obs):
     ks = []
     pol = [s for s in case['stmts'] if s['k'] == 'policy']
     dp = [s for s in case['stmts'] if s['k'] == 'defperm']
-    ks.append('policy:' + ('none' if not pol else ('falsy' if pol[0]['falsy'] else 'truthy') + ('-ctor' if pol[0]['ctor'] else '')))
+    ks.append('policy:' + ('none' if not pol else ('legacy-pair' if pol[0].get('legacy') else ('falsy' if pol[0]['falsy'] else 'truthy') + ('-ctor' if pol[0]['ctor'] else ''))))
     if pol and not pol[0]['ctor']:
         idx = case['stmts'].index(pol[0])
         last = (case['cut'] if case.get('cut') is not None else len(case['stmts']) - 1)
